@@ -33,26 +33,33 @@ theorem replaceRemote_local (s : Life) (c : LoadCfg) :
   | none => simp
   | some p => cases p; simp
 
-/-- one load: the invariants are kept, and afterwards exactly the servers of THIS config listen -/
-theorem load_step (s : Life) (c : LoadCfg) (hr : RemoteInv s) (hl : LocalInv s) :
+/-- a load whose admin listener cannot be bound changes nothing at all -/
+theorem load_blocked (s : Life) (c : LoadCfg) (hb : c.loc = .blocked) : load s c = s := by
+  simp [load, hb, replaceLocal]
+
+/-- one successful load: the invariants are kept, and afterwards exactly the servers of THIS config
+    listen -/
+theorem load_step (s : Life) (c : LoadCfg) (hnb : c.loc ≠ .blocked) (hr : RemoteInv s) (hl : LocalInv s) :
     RemoteInv (load s c) ∧ LocalInv (load s c) ∧
     (c.remote = none → (load s c).liveRemote = []) ∧
     (∀ a acl, c.remote = some (a, acl) → ∃ id, (load s c).liveRemote = [⟨id, a, acl⟩]) ∧
     (c.loc = .disabled → (load s c).liveLocal = []) ∧
-    (∀ a, c.loc = .listen a → ∃ id, (load s c).liveLocal = [⟨id, a⟩]) := by
+    (∀ a t, c.loc = .listen a t → ∃ id, (load s c).liveLocal = [⟨id, a, t⟩]) := by
   have hr' : RemoteInv (replaceLocal s c) := by
     unfold RemoteInv; rw [(replaceLocal_remote s c).1, (replaceLocal_remote s c).2]; exact hr
   have hstopR := stopR_inv _ hr'
   have hstopL := stopL_inv s hl
   have hlocal : LocalInv (replaceLocal s c) ∧ (c.loc = .disabled → (replaceLocal s c).liveLocal = []) ∧
-      (∀ a, c.loc = .listen a → ∃ id, (replaceLocal s c).liveLocal = [⟨id, a⟩]) := by
+      (∀ a t, c.loc = .listen a t → ∃ id, (replaceLocal s c).liveLocal = [⟨id, a, t⟩]) := by
     unfold replaceLocal LocalInv
     cases hc : c.loc with
     | disabled => simp [hstopL]
     | absent => simp [hstopL]
-    | listen a => simp [hstopL]
+    | listen a t => simp [hstopL]
+    | blocked => exact absurd hc hnb
   have hloc2 := replaceRemote_local (replaceLocal s c) c
-  unfold load
+  have hload : load s c = replaceRemote (replaceLocal s c) c := by simp [load, hnb]
+  rw [hload]
   refine ⟨?_, ?_, ?_, ?_, ?_, ?_⟩
   · unfold replaceRemote RemoteInv
     cases hc : c.remote with
@@ -62,7 +69,7 @@ theorem load_step (s : Life) (c : LoadCfg) (hr : RemoteInv s) (hl : LocalInv s) 
   · intro hc; unfold replaceRemote; simp [hc, hstopR]
   · intro a acl hc; unfold replaceRemote; simp [hc, hstopR]
   · intro hc; rw [hloc2.1]; exact hlocal.2.1 hc
-  · intro a hc; rw [hloc2.1]; exact hlocal.2.2 a hc
+  · intro a t hc; rw [hloc2.1]; exact hlocal.2.2 a t hc
 
 theorem foldl_inv : ∀ (hist : List LoadCfg) (s : Life), RemoteInv s → LocalInv s →
     RemoteInv (hist.foldl load s) ∧ LocalInv (hist.foldl load s) := by
@@ -71,8 +78,23 @@ theorem foldl_inv : ∀ (hist : List LoadCfg) (s : Life), RemoteInv s → LocalI
   | nil => intro s hr hl; exact ⟨hr, hl⟩
   | cons c cs ih =>
     intro s hr hl
-    have h := load_step s c hr hl
-    exact ih (load s c) h.1 h.2.1
+    by_cases hb : c.loc = .blocked
+    · simp only [List.foldl_cons, load_blocked s c hb]; exact ih s hr hl
+    · have h := load_step s c hb hr hl
+      exact ih (load s c) h.1 h.2.1
+
+/-- failed loads can be struck out of a history: the state is that of the successful loads alone -/
+theorem foldl_filter_blocked : ∀ (hist : List LoadCfg) (s : Life),
+    hist.foldl load s = (hist.filter (fun c => c.loc != .blocked)).foldl load s := by
+  intro hist
+  induction hist with
+  | nil => intro s; rfl
+  | cons c cs ih =>
+    intro s
+    by_cases hb : c.loc = .blocked
+    · simp [List.foldl_cons, load_blocked s c hb, hb, ih s]
+    · have : (c.loc != .blocked) = true := by simpa using hb
+      simp [List.filter_cons, this, ih (load s c)]
 
 theorem init_inv : RemoteInv Life.init ∧ LocalInv Life.init := ⟨Or.inl rfl, Or.inl rfl⟩
 
